@@ -22,7 +22,14 @@ Definition r2d : R := 180 / PI.      (* RAD2DEG *)
 Definition d2r : R := PI / 180.      (* DEG2RAD *)
 Definition dt100 : R := 1 / 100.     (* 1 / frequency of the traced instances *)
 
-Ltac unfold_c20 := cbv [body add3 scale3 norm3 unit3 vecpart rate ptp fold_left app r2d d2r dt100]; unfold_rot.
+(* gyroscope bias: Pdeg = ptp of the noise-free rates in deg/s of a three-row trajectory (w_0 = 0: the three zeros of
+   row 0 enter as one 0); the bias drawn is (u - 1/2) Pdeg / 200 deg/s; in radians mode the code multiplies it by
+   DEG2RAD twice - before adding it to the deg/s signal and again with the signal *)
+Definition Pdeg (q0 q1 q2 : list R) : R := ptp (0 :: scale3 r2d (rate dt100 q0 q1) ++ scale3 r2d (rate dt100 q1 q2)).
+Definition bias_deg (q0 q1 q2 : list R) (u0 u1 u2 : R) : list R := scale3 (Pdeg q0 q1 q2 / 200) [u0 - 1/2; u1 - 1/2; u2 - 1/2].
+Definition bias_rad (q0 q1 q2 : list R) (u0 u1 u2 : R) : list R := scale3 (d2r * d2r) (bias_deg q0 q1 q2 u0 u1 u2).
+
+Ltac unfold_c20 := cbv [body add3 scale3 norm3 unit3 vecpart rate ptp fold_left app r2d d2r dt100 Pdeg bias_deg bias_rad]; unfold_rot.
 
 Lemma Rmax_eq2 a a' b b' : a = a' -> b = b' -> Rmax a b = Rmax a' b'. Proof. intros -> ->; reflexivity. Qed.
 Lemma Rmin_eq2 a a' b b' : a = a' -> b = b' -> Rmin a b = Rmin a' b'. Proof. intros -> ->; reflexivity. Qed.
@@ -42,6 +49,16 @@ Ltac qnorm1 :=
 (* open a regenerated definition under the unit-norm hypotheses: constructor gates decided, norms = 1 *)
 Ltac gates := repeat gate_01; repeat gate_abs0.
 Ltac open3 := intros; unfold unit4 in *; orient_unit; cbv zeta; first [progress qnorm1 | norm1]; gates.
+
+(* close a gyroscope lemma: name the generated peak-to-peak term, identify it with the specification's, then field *)
+Ltac gyro_close :=
+  let P := fresh "P" in let HPI := fresh "HPI" in
+  assert (HPI : PI <> 0) by (pose proof PI_RGT_0; lra);
+  try destr_dec; unfold_c20;
+  match goal with |- Val ?l = _ => match l with context [Rmax ?a ?b - ?c] => set (P := Rmax a b - c) end end;
+  match goal with |- _ = Val ?l => match l with context [Rmax ?a ?b - ?c] =>
+     replace (Rmax a b - c) with P by (subst P; ptp_eq_with ltac:(try reflexivity; field; exact HPI)) end end;
+  clearbody P; val_eq; field; exact HPI.
 
 (* the reported noise level is the requested one unless the code overrides it (closes the side clause of the
    magnetometer lemmas on the pinned tree - override branch contradicts the premise - and on the repaired tree) *)
